@@ -194,7 +194,7 @@ class LPoly():
         '''
         round small coefficients down to zero
         '''
-        self.coefs[self.coefs < thresh] = 0
+        self.coefs[numpy.abs(self.coefs) < thresh] = 0
 
     def pos_half(self):
         '''
